@@ -144,13 +144,16 @@ func (builder *RuleBuilder) BuildRuleWithIncremental(ruleString string) error {
 		newSortRules[sk] = sv
 	}
 
+	//the index of the copy: the published index map is only read here, a rebuilt one replaces it in the copy
+	newSortRulesIndexMap := builder.Kc.SortRulesIndexMap
+
 	//kc store the new rules
 	for k, v := range kc.RuleEntities {
 
 		if vm, ok := newRuleEntities[k]; ok {
 			//repalce update
 			//search
-			index := builder.Kc.SortRulesIndexMap[v.RuleName]
+			index := newSortRulesIndexMap[v.RuleName]
 			if v.Salience == vm.Salience {
 				//replace
 				newSortRules[index] = v
@@ -173,7 +176,7 @@ func (builder *RuleBuilder) BuildRuleWithIncremental(ruleString string) error {
 				for k, v := range newSortRules {
 					indexMap[v.RuleName] = k
 				}
-				builder.Kc.SortRulesIndexMap = indexMap
+				newSortRulesIndexMap = indexMap
 			}
 
 			newRuleEntities[k] = v
@@ -195,14 +198,19 @@ func (builder *RuleBuilder) BuildRuleWithIncremental(ruleString string) error {
 			for k, v := range newSortRules {
 				indexMap[v.RuleName] = k
 			}
-			builder.Kc.SortRulesIndexMap = indexMap
+			newSortRulesIndexMap = indexMap
 
 			newRuleEntities[k] = v
 		}
 	}
 
-	builder.Kc.RuleEntities = newRuleEntities
-	builder.Kc.SortRules = newSortRules
+	//publish by swapping in a fresh container: the published one is never edited, an execution
+	//that already took it keeps seeing one complete version
+	newKc := base.NewKnowledgeContext()
+	newKc.RuleEntities = newRuleEntities
+	newKc.SortRules = newSortRules
+	newKc.SortRulesIndexMap = newSortRulesIndexMap
+	builder.Kc = newKc
 
 	return nil
 }
